@@ -23,7 +23,7 @@ base = json.load(open("/root/.vp/BASELINE.json"))
 stable = set(base["stable_pass"])
 missing = sorted(stable - passed)
 print("baseline: %d/%d stable tests pass (guard off)" % (len(stable & passed), len(stable)))
-for m in missing:
+for m in missing[:10]:
     print("MISSING: " + m)
 sys.exit(1 if missing else 0)
 EOF
